@@ -33,7 +33,15 @@ struct Combo {
     output: usize,
 }
 
-fn spectra() -> Vec<RefArray> {
+/// Index of the first large spectrum in `spectra()`; those are run with a reduced option set.
+const FIRST_BIG: usize = 13;
+
+fn spectra() -> &'static Vec<RefArray> {
+    static S: std::sync::OnceLock<Vec<RefArray>> = std::sync::OnceLock::new();
+    S.get_or_init(build_spectra)
+}
+
+fn build_spectra() -> Vec<RefArray> {
     vec![
         RefArray::from_fn(&[5], |f, _| (f * 3 + 1) as f64),
         RefArray::from_fn(&[3, 4], |f, _| ((f * 5) % 7 + 1) as f64),
@@ -47,6 +55,13 @@ fn spectra() -> Vec<RefArray> {
         RefArray { shape: vec![1], data: vec![7.0] },
         RefArray { shape: vec![1, 1, 1], data: vec![3.5] },
         RefArray { shape: vec![4], data: vec![0.25, 0.5, 0.125, 0.0625] },
+        // totals within 1e-6 of one without being one
+        RefArray { shape: vec![2, 3], data: vec![0.1, 0.2, 0.3, 0.15, 0.05, 0.2000004] },
+        RefArray { shape: vec![4], data: vec![0.25, 0.25, 0.25, 0.2499997] },
+        // more than 4096 entries (buffer / block boundaries of the writers)
+        RefArray::from_fn(&[4100], |f, _| (f % 97) as f64 + 0.5),
+        RefArray::from_fn(&[65, 65], |f, _| ((f * 7) % 101) as f64 + 1.0),
+        RefArray::from_fn(&[17, 17, 17], |f, _| ((f * 3) % 89) as f64 + 0.25),
     ]
 }
 
@@ -289,9 +304,10 @@ fn eval(c: &Combo, scratch: &Scratch) -> Vec<Viol> {
 
 fn combos(tier: Tier) -> Vec<Combo> {
     let sp = spectra();
+    assert!(sp.len() == FIRST_BIG + 3 && sp[FIRST_BIG].data.len() > 4096);
     let mut out = Vec::new();
     let mut counter = 0usize;
-    for (si, x) in sp.iter().enumerate().filter(|(si, _)| tier.thorough() || ![4, 5].contains(si)) {
+    for (si, x) in sp.iter().enumerate().filter(|(si, _)| *si < FIRST_BIG && (tier.thorough() || ![4, 5].contains(si))) {
         let d = x.shape.len();
         let mut margs = vec![Marg::None];
         if d >= 2 {
@@ -346,12 +362,30 @@ fn combos(tier: Tier) -> Vec<Combo> {
             }
         }
     }
+    // large spectra: option subsets without marginalization sets / projection grids
+    for si in FIRST_BIG..sp.len() {
+        let d = sp[si].shape.len();
+        for (marg, project) in [
+            (Marg::None, None),
+            (if d >= 2 { Marg::Remove(vec![0]) } else { Marg::None }, None),
+            // (the naive reference projection is quadratic in the number of entries: 1-axis spectrum only)
+            (Marg::None, if d == 1 { Some(sp[si].shape.iter().map(|n| n - 1).collect::<Vec<usize>>()) } else { None }),
+        ] {
+            for mask in [false, true] {
+                for normalize in [false, true] {
+                    for output in [0usize, 2] {
+                        out.push(Combo { spectrum: si, marg: marg.clone(), project: project.clone(), individuals: false, mask, normalize, output });
+                    }
+                }
+            }
+        }
+    }
     out
 }
 
 pub fn run(tier: Tier) -> i32 {
     let mut rep = Report::new("C13", tier, "model_checking");
-    rep.rule = "operation sequences of `sfs view`: spectra with 1..4 axes (counts, totals below and equal to one, single-entry spectra) x all 16 subsets of {marginalize, project, mask, normalize} x every admissible marginalization set (as -m and as -M) x projection targets {identity, each axis -1, minimal, odd shape via -p} x output {text p6, text p12, npy}. For each combination (a) the combined invocation and (b) the chain of single-option invocations in the documented order connected by lossless npy pipes must be byte-identical, and (c) the combined result must equal the reference semantics (marginalize, hypergeometric project, zero exactly the all-zero and all-maximum cells, divide by the sum). All orders of chaining are run on one spectrum to show that the oracle distinguishes orders. states = distinct option combinations, transitions = sfs processes run. Non-trivial = >=2 options selected.".into();
+    rep.rule = "operation sequences of `sfs view`: spectra with 1..4 axes (counts, totals below and equal to one, single-entry spectra, totals within 1e-6 of one; three spectra with more than 4096 entries under a reduced option grid) x all 16 subsets of {marginalize, project, mask, normalize} x every admissible marginalization set (as -m and as -M) x projection targets {identity, each axis -1, minimal, odd shape via -p} x output {text p6, text p12, npy}. For each combination (a) the combined invocation and (b) the chain of single-option invocations in the documented order connected by lossless npy pipes must be byte-identical, and (c) the combined result must equal the reference semantics (marginalize, hypergeometric project, zero exactly the all-zero and all-maximum cells, divide by the sum). All orders of chaining are run on one spectrum to show that the oracle distinguishes orders. states = distinct option combinations, transitions = sfs processes run. Non-trivial = >=2 options selected.".into();
     let scratch = Scratch::new("c13");
     let cs = combos(tier);
     let res = par_map(cs.len(), |i| eval(&cs[i], &scratch));
